@@ -110,7 +110,9 @@ fn strat(_: &Ctx) -> BoxedStrategy<Case> {
             (c, Beh::Drip) => (c, Beh::Success),
             x => x,
         };
-        let timeout = beh == Beh::Silent || beh == Beh::Drip;
+        // a timeout modifier in front of a call that is answered locally (is_closed, last_id, get_peer_certificate) would
+        // stay pending and hit the NEXT operation, which the server answers at once: a 40 ms race under load in both runs
+        let timeout = (beh == Beh::Silent || beh == Beh::Drip) && needs_server(&call);
         Step { controls, timeout, search_opts, call, beh }
     });
     (0u8..4, vec(step, 1..8), any::<bool>())
